@@ -106,6 +106,7 @@ Definition chk_C04_step (before : list obs_alloc) (o : ostep) : bool :=
       forallb (fun a => is_life a) (os_acts o) &&
       mset_eqb obs_alloc_eqb (others src before) (others src (os_allocs o))
   | ESrvClose => forallb (fun a => is_life a) (os_acts o)
+  | EDeadMsg => match os_acts o with [] => true | _ => false end && mset_eqb obs_alloc_eqb before (os_allocs o)
   end.
 Definition chk_C04 (c : rcase) : bool := all_steps chk_C04_step [] (rc_steps c).
 
@@ -312,11 +313,13 @@ Definition chk_C08 (c : rcase) : bool := all_steps chk_C08_step [] (rc_steps c).
 Definition count_life (f : lifecycle -> bool) (acts : list action) : Z :=
   Z.of_nat (length (filter (fun a => match a with Life e => f e | _ => false end) acts)).
 
-(* a control connection that ends takes its allocation with it; once the server is closed nothing remains *)
-Definition ended_ok (e : event) (l : list obs_alloc) : bool :=
+(* a control connection that ends takes its allocation with it; once the server is closed nothing remains
+   and nothing happens any more *)
+Definition ended_ok (e : event) (acts : list action) (l : list obs_alloc) : bool :=
   match e with
   | ESrvClose => match l with [] => true | _ => false end
   | ECtlClose src => negb (existsb (fun a => addr_eqb (oa_client a) src) l)
+  | EDeadMsg => match acts with [] => true | _ => false end    (* a closed server does nothing at all *)
   | _ => true
   end.
 
@@ -334,7 +337,7 @@ Fixpoint chk_C15_from (na np nc : Z) (steps : list ostep) : bool :=
       (na' =? Z.of_nat (length (os_allocs o))) &&
       (np' =? Z.of_nat (length (flat_map oa_perms (os_allocs o)))) &&
       (nc' =? Z.of_nat (length (flat_map oa_chans (os_allocs o)))) &&
-      ended_ok (os_ev o) (os_allocs o) &&
+      ended_ok (os_ev o) (os_acts o) (os_allocs o) &&
       chk_C15_from na' np' nc' r
   end.
 Definition chk_C15 (c : rcase) : bool := chk_C15_from 0 0 0 (rc_steps c).
